@@ -28,6 +28,35 @@ SCRIPT = r"""
 import sys, json, importlib, types, inspect
 order = json.loads(sys.argv[1])
 FORM = sys.argv[2] if len(sys.argv) > 2 else "module"
+PRE = sys.argv[3] if len(sys.argv) > 3 else ""
+_out = sys.stdout
+# what a client may legitimately have done to its own process before it first imports the package
+if PRE == "decimal-strict":
+    import decimal
+    for _c in (decimal.getcontext(), decimal.DefaultContext):
+        _c.traps[decimal.FloatOperation] = True
+        _c.prec = 3
+        _c.rounding = decimal.ROUND_DOWN
+elif PRE == "no-stdio":
+    sys.stdout = sys.stderr = sys.stdin = None
+elif PRE == "duck-stdio":
+    class _Tee:
+        def write(self, s): return len(s)
+        def flush(self): pass
+    sys.stdout = sys.stderr = _Tee()
+elif PRE == "logging-set-up":
+    import logging
+    logging.getLogger().addHandler(logging.NullHandler())
+    logging.getLogger().setLevel(logging.DEBUG)
+    logging.getLogger("chartparse").setLevel(logging.ERROR)
+    logging.disable(logging.CRITICAL)
+elif PRE == "warnings-error":
+    import warnings
+    warnings.simplefilter("error")
+elif PRE == "elsewhere":
+    import os
+    os.chdir("/")
+    sys.setrecursionlimit(400)
 steps = []
 for m in order:
     try:
@@ -115,7 +144,8 @@ if all(s_ == "ok" for s_ in steps):
     if M("chart"):
         attempt("chart", lambda: str(M("chart").Chart.from_file(io.StringIO(
             "[Song]\n{\n  Resolution = 192\n}\n[SyncTrack]\n{\n  0 = TS 4\n  0 = B 120000\n}\n[Events]\n{\n  5 = E \"section a\"\n}\n[ExpertSingle]\n{\n  0 = N 0 0\n  3 = E solo\n}\n"))))
-print(json.dumps({"steps": steps, "mods": mods, "use": use}))
+_out.write(json.dumps({"steps": steps, "mods": mods, "use": use}) + "\n")
+_out.flush()
 """
 
 
@@ -126,10 +156,13 @@ def modules():
 FORMS = ["module", "stmt", "from", "dunder"]
 
 
-def run_order(order, flags=(), form="module", path=None):
+PRES = ["decimal-strict", "no-stdio", "duck-stdio", "logging-set-up", "warnings-error", "elsewhere"]
+
+
+def run_order(order, flags=(), form="module", path=None, pre=""):
     # always compile from source (compile-time warnings exist only then): no bytecode is read or written
     env = dict(os.environ, PYTHONPATH=str(path or fw.REPO), PYTHONDONTWRITEBYTECODE="1", PYTHONPYCACHEPREFIX="/nonexistent/chartparse-verif-no-cache")
-    p = subprocess.run(["/venv/bin/python", *flags, "-c", SCRIPT, json.dumps(order), form], stdout=subprocess.PIPE,
+    p = subprocess.run(["/venv/bin/python", *flags, "-c", SCRIPT, json.dumps(order), form, pre], stdout=subprocess.PIPE,
                        stderr=subprocess.PIPE, env=env, timeout=120)
     try:
         return json.loads(p.stdout.decode().strip().splitlines()[-1])
@@ -182,6 +215,8 @@ def slice(ctx: fw.Ctx) -> fw.Outcome:
     flagged = [([m], fl, FORMS[(i + j) % 4], None) for j, fl in enumerate((("-O",), ("-OO",), ("-W", "error"), ("-X", "warn_default_encoding", "-W", "error"), ("-X", "dev", "-W", "error"), ("-B", "-bb"))) for i, m in enumerate(mods)]
     # every module first, every way of writing the import (4 x 12, complete)
     flagged += [([m], (), f, None) for f in FORMS[1:] for m in mods]
+    # every module first in a process its client has already configured (decimal context, standard streams, logging, warnings, cwd)
+    flagged += [([m], (), FORMS[(i + j) % 4], None, pre) for j, pre in enumerate(PRES) for i, m in enumerate(mods)]
     import shutil
     import tempfile
     tmp = tempfile.mkdtemp(prefix="chartparse-verif-zip-")
@@ -192,14 +227,14 @@ def slice(ctx: fw.Ctx) -> fw.Outcome:
             fres = list(ex.map(lambda of: run_order(*of), flagged))
     finally:
         shutil.rmtree(tmp, ignore_errors=True)
-    for (o, fl, form, zp), r in zip(flagged, fres):
-        fl = tuple(fl) + (("form=" + form,) if form != "module" else ()) + (("zip",) if zp else ())
+    for (o, fl, form, zp, *pre), r in zip(flagged, fres):
+        fl = tuple(fl) + (("form=" + form,) if form != "module" else ()) + (("zip",) if zp else ()) + (("client=" + pre[0],) if pre else ())
         ok = all(s_ == "ok" for s_ in r["steps"]) and len(r["steps"]) == len(o)
         unusable = [u for u in r.get("use", []) if u[1] != "ok"]
         out.case(",".join(o) + "".join(fl), True, None, tags=["first-import" + "".join(fl)])
         if not ok or unusable:
             out.violation("flag-" + "".join(fl) + o[0], f"python {' '.join(fl)}: first import of chartparse.{o[0]} " + (f"fails ({r['steps'][-1]})" if not ok else f"leaves {unusable[0][0]} unusable: {unusable[0][1]}"),
-                          {"op": "imports", "order": o, "flags": [x for x in fl if x.startswith("-") or x in ("error", "dev", "warn_default_encoding")], "form": form, "zip": bool(zp)},
+                          {"op": "imports", "order": o, "flags": [x for x in fl if x.startswith("-") or x in ("error", "dev", "warn_default_encoding")], "form": form, "zip": bool(zp), "pre": pre[0] if pre else ""},
                           observed=r["steps"], promised="importable first under any interpreter switches, import form and package location")
     for o, r, m, form in zip(orders, results, model, forms):
         key = ",".join(o)
@@ -253,7 +288,7 @@ def replay(ctx: fw.Ctx, data: dict):
         finally:
             shutil.rmtree(tmp, ignore_errors=True)
     else:
-        r = run_order(data["order"], tuple(data.get("flags", ())), data.get("form", "module"))
+        r = run_order(data["order"], tuple(data.get("flags", ())), data.get("form", "module"), None, data.get("pre", ""))
     ok = all(s == "ok" for s in r["steps"]) and len(r["steps"]) == len(data["order"])
     unusable = [u for u in r.get("use", []) if u[1] != "ok"]
     return (not ok) or bool(unusable), [r["steps"], unusable[:2]]
